@@ -250,6 +250,8 @@ func (r *Run) Finish(verifDir string, meta propMeta, start time.Time, seed int) 
 			"trusted_base":        []string{"go/parser, go/types, go/ssa (x/tools v0.50.0)", "documented contracts of stdlib/roaring listed in DESIGN.md section 2"},
 			"exhaustive":          false,
 			"notes":               r.notes,
+			"seeded_selftest":     os.Getenv("VERIF_SELFTEST_SUMMARY"),
+			"extra_configurations": map[string]string{"thorough": "rules re-run under GOARCH=386 and -tags verif before this run (thorough.sh)"}[r.Tier],
 		},
 		"assumptions": meta.Assumptions,
 		"wall_s":      time.Since(start).Seconds(),
